@@ -183,7 +183,13 @@ func (w *World) Do(o fsx.Op) (r fsx.Reply, implFail bool, mis *reffs.Mismatch) {
 		return
 	case "CREATEMANY":
 		for i := 0; i < int(o.Cnt); i++ {
-			if _, _, m := w.Do(fsx.Op{K: "CREATE", H: o.H, N: fmt.Sprintf("%s%03d", o.N, i), As: "_"}); m != nil {
+			name := fmt.Sprintf("%s%03d", o.N, i)
+			if o.Len > 0 { // names padded to the given length
+				for int64(len(name)) < o.Len {
+					name += "_"
+				}
+			}
+			if _, _, m := w.Do(fsx.Op{K: "CREATE", H: o.H, N: name, As: "_"}); m != nil {
 				return r, false, m
 			}
 		}
